@@ -69,7 +69,9 @@ ROOT_TREE = {
     "sock": SOCKET, "sock.html": SOCKET,
 }
 OUTSIDE = {"secret.txt": b"SECRET", "root.html": b"ROOT HTML OUTSIDE", "rootx/s.txt": b"SIBLING SECRET", "rootx/file.txt": b"SIBLING FILE",
-           "other/root/file.txt": b"OTHER CWD FILE", "other/root/index.html": b"OTHER CWD INDEX", "file.txt": b"PARENT FILE", "index.html": b"PARENT INDEX", "dir/f.txt": b"PARENT DIR F"}
+           "other/root/file.txt": b"OTHER CWD FILE", "other/root/index.html": b"OTHER CWD INDEX", "file.txt": b"PARENT FILE", "index.html": b"PARENT INDEX", "dir/f.txt": b"PARENT DIR F",
+           # names that have a conventional meaning for some servers, next to the served directory
+           "404.html": b"PARENT 404 PAGE", "error.html": b"PARENT ERROR PAGE", ".htaccess": b"deny", "favicon.ico": b"ICO"}
 
 _AUDIT = {"sandbox": None, "root": None, "log": []}
 
@@ -309,10 +311,10 @@ def ref(kind, path):
     return ("notfound",)
 
 
-def request(app, iface, path, root="", method="GET"):
+def request(app, iface, path, root="", method="GET", headers=()):
     from baize.exceptions import HTTPException
 
-    req = SV.AReq(path=path, root=root, method=method)
+    req = SV.AReq(path=path, root=root, method=method, headers=list(headers))
     if iface == "wsgi":
         res = SV.run_wsgi(app, SV.to_environ(req))
     else:
@@ -374,6 +376,15 @@ def judge(r, apps, spelling, iface, kind, path, root="", note=None):
                     return
             else:
                 r.violation("redirect-location", w, f"{where}: Location {loc!r} is not the same URL plus '/'")
+                return
+    if ok and want[0] in ("notfound", "redirect") and got[0] in ("notfound", "redirect"):
+        # a conditional request for something that is not a served file (a directory, a missing name, a path outside): the
+        # validators of no file can match it - the answer is the same not-found / redirect
+        for hs in ([("If-None-Match", "*")], [("If-Modified-Since", "Fri, 01 Jan 2038 00:00:00 GMT")], [("If-None-Match", '"x", *'), ("If-Modified-Since", "Fri, 01 Jan 2038 00:00:00 GMT")]):
+            got3, res3 = request(app, iface, path, root, headers=hs)
+            r.count("evaluations")
+            if got3 != got:
+                r.violation("conditional-on-non-file", dict(w, headers=hs), f"{where} with {hs}: got {got3!r:.80}; without the conditional headers {got!r:.80}")
                 return
     if not ok:
         kindname = "served-wrong-content" if got[0] == "file" else ("not-served" if want[0] == "file" else "wrong-outcome")
